@@ -437,39 +437,22 @@ def run_hist(t, v, ops):
 
 
 def share_info(a, b):
-    """number of positions where the new tree has a fresh (non-identical) pair node while the old
-    tree has a node with the same root at that position: 0 means untouched subtrees are shared"""
-    fresh_equal = 0
-    new_pairs = 0
-    stack = [(a, b)]
-    while stack:
-        x, y = stack.pop()
-        if x is y:
+    """generalized indices of the FRESH pair nodes of the new tree b: positions where b has a pair node
+    that is not the very same object as the node of the old tree a at that position"""
+    fresh = []
+    stack = [(a, b, 1)]
+    while stack and len(fresh) < 400:
+        x, y, g = stack.pop()
+        if x is y or y.is_leaf():
             continue
-        if isinstance(y, PairNode):
-            if y._root is None or True:
-                pass
-            if x is not None and not x.is_leaf() and isinstance(x, PairNode):
-                new_pairs += 1
-                if x._root is not None and y._root is not None and x._root == y._root:
-                    fresh_equal += 1
-                stack.append((x.left, y.left))
-                stack.append((x.right, y.right))
-            else:
-                new_pairs += count_pairs(y)
-    return '%d/%d' % (fresh_equal, new_pairs)
-
-
-def count_pairs(n):
-    c = 0
-    st = [n]
-    while st:
-        x = st.pop()
-        if isinstance(x, PairNode):
-            c += 1
-            st.append(x.left)
-            st.append(x.right)
-    return c
+        fresh.append(g)
+        if x is not None and not x.is_leaf():
+            stack.append((x.get_left(), y.get_left(), 2 * g))
+            stack.append((x.get_right(), y.get_right(), 2 * g + 1))
+        else:
+            stack.append((None, y.get_left(), 2 * g))
+            stack.append((None, y.get_right(), 2 * g + 1))
+    return ','.join(str(g) for g in sorted(fresh))
 
 
 def run_dec(t, pre, body, post):
